@@ -106,8 +106,12 @@ class Ctx:
                   coverage=cov, assumptions=self.assumptions, wall_s=round(wall, 1),
                   violations=len(self.violations),
                   known_findings=[k["id"] for k in self.known_hits])
-        os.makedirs(EVID, exist_ok=True)
-        with open(os.path.join(EVID, self.prop + ".json"), "w") as f:
+        evid = EVID
+        if not re.match(r"^C\d+$", self.prop):
+            # extension checks (specification coverage beyond the listed properties): not part of MANIFEST.json
+            evid = os.path.join(os.path.dirname(EVID), "evidence_extra") if EVID.endswith("/evidence") else EVID
+        os.makedirs(evid, exist_ok=True)
+        with open(os.path.join(evid, self.prop + ".json"), "w") as f:
             json.dump(ev, f, indent=1, default=str)
         for k in self.known_hits:
             print("KNOWN-FINDING: property=%s %s [%s, %d occurrence(s), e.g. %s]" %
@@ -360,6 +364,12 @@ def main(argv):
     ap.add_argument("--replay", default=None)
     a = ap.parse_args(argv)
     seed = int(os.environ.get("VERIF_SEED", "1") or 1)
+    if os.path.abspath(REPO) == "/repo":
+        # development switches of the checks (skip model checking, caches, partial runs) are honoured only on a
+        # scratch copy of the repository: a registered command always runs the whole check
+        for k in list(os.environ):
+            if k.startswith("VERIF_") and k not in ("VERIF_SEED", "VERIF_TIER", "VERIF_REPO"):
+                del os.environ[k]
     sys.path.insert(0, VERIF)
     mod = importlib.import_module("checks." + a.prop.lower())
     ctx = Ctx(a.prop, a.tier, seed, mod.LEVEL)
